@@ -20,6 +20,21 @@ m("c12-read-not-exact", "src/common/socks.rs", "    io.read_exact(&mut buf).awai
 m("c12-unsplit-order", "src/common/frames.rs", "            last.unsplit(buf);\n            self.remaining = Some(last);", "            buf.unsplit(last);\n            self.remaining = Some(buf);", ["C12"])
 m("c12-nul-eof-ok", "src/common/socks.rs", "    if buf.pop() != Some(0) {\n        bail!(\"unexpected EOF in null terminated string\");\n    }", "    buf.pop();", ["C12"])
 
+# ---- C03
+m("c03-v5-silent-truncate", "src/common/socks.rs", "                bail!(\"domain name too long for socks5: {} bytes\", domain.len());", "                let _ = domain;", ["C03"])
+m("c03-frame-port-le", "src/common/frames.rs", "            buf.put_slice(str);\n            buf.put_u16(*port);", "            buf.put_slice(str);\n            buf.put_u16_le(*port);", ["C03"])
+m("c03-host-header-hostonly", "src/common/h11c.rs", "            HttpRequest::new(\"CONNECT\", &target)\n                .with_header(\"Host\", &target)", "            HttpRequest::new(\"CONNECT\", &target)\n                .with_header(\"Host\", target.host())", ["C03"])
+m("c03-lossy-again", "src/common/socks.rs", "    io.read_exact(&mut buf).await.context(\"data\")?;\n    String::from_utf8(buf).context(\"invalid utf8 string\")", "    io.read_exact(&mut buf).await.context(\"data\")?;\n    Ok(String::from_utf8_lossy(&buf).to_string())", ["C03"])
+m("c03-connect-ctl-ok", "src/common/h11c.rs", "if host.chars().any(|c| c.is_ascii_whitespace() || c.is_control()) {", "if host.chars().any(|c| c == ' ') {", ["C03"])
+m("c03-udp-domain-len", "src/common/socks.rs", "                body.put_u8(bytes.len() as u8);\n                body.extend_from_slice(bytes);", "                body.put_u8(bytes.len() as u8 + 1);\n                body.extend_from_slice(bytes);", ["C03"])
+m("c03-v4-ip-order", "src/common/socks.rs", "                    (v4.octets(), a.port(), None)", "                    ({ let mut o = v4.octets(); o.reverse(); o }, a.port(), None)", ["C03"])
+# ---- C05
+m("c05-session-unwrap", "src/common/h11c.rs", "                .parse()\n                .context(\"invalid Session-Id from upstream server\")?;", "                .parse()\n                .unwrap();", ["C05"])
+m("c05-frombuffer-unwrap", "src/common/frames.rs", "let ret = Frame::from_buffer(buf)?;", "let ret = Frame::from_buffer(buf).unwrap();", ["C05"])
+m("c05-attr-len-check", "src/common/frames.rs", "    if len > buf.len() {\n        return Err(IoError::new(ErrorKind::InvalidInput, \"bad header\"));\n    }\n    match tag {", "    match tag {", ["C05"])
+m("c05-short-datagram", "src/common/fragment.rs", "        if buf.len() < 4 {\n            return None;\n        }", "", ["C05", "C11"])
+m("c05-udp-v6-len", "src/common/socks.rs", "                if body.len() < 18 {", "                if body.len() < 16 {", ["C05"])
+
 def run(name, file, old, new, props):
     path = os.path.join("/repo", file)
     src = open(path).read()
